@@ -161,7 +161,7 @@ def _work(units):
 
 
 def run(res, tier):
-    k = 2 if tier == "quick" else 3
+    k = 2 if tier == "quick" else 4
     vals = list(dict.fromkeys(list(lits.strings(k)) + lits.NAMED))
     nums = []
     for i in lits.INTS:
